@@ -753,7 +753,67 @@ func (bc *boundsCtx) lenOf1(x ssa.Value) lterm {
 			bc.z.addLE(lconst(m), me)
 		}
 	}
+	if prm, ok := x.(*ssa.Parameter); ok {
+		if m, ok := bc.p.paramMaxLen(prm); ok {
+			bc.z.addLE(me, lconst(m))
+		}
+	}
 	return me
+}
+
+// capConst: a constant upper bound on cap(v) when v is (a slice of) a constant-sized allocation.
+func capConst(v ssa.Value, depth int) (int64, bool) {
+	if depth > 6 {
+		return 0, false
+	}
+	switch y := v.(type) {
+	case *ssa.MakeSlice:
+		if k, ok := constInt(y.Cap); ok {
+			return k, true
+		}
+	case *ssa.Slice:
+		if arr, ok := deref(y.X.Type()).Underlying().(*types.Array); ok {
+			if _, isSlice := y.X.Type().Underlying().(*types.Slice); !isSlice {
+				return arr.Len(), true
+			}
+		}
+		return capConst(y.X, depth+1)
+	case *ssa.ChangeType:
+		return capConst(y.X, depth+1)
+	}
+	return 0, false
+}
+
+// paramMaxLen: upper bound on len(prm) of an unexported function: every caller passes (a slice of) a constant-sized
+// allocation made in the caller.
+func (p *Prog) paramMaxLen(prm *ssa.Parameter) (int64, bool) {
+	fn := prm.Parent()
+	if _, isSl := prm.Type().Underlying().(*types.Slice); !isSl || fn == nil || fn.Object() == nil || fn.Object().Exported() {
+		return 0, false
+	}
+	idx := paramIndex(fn, prm)
+	max, n := int64(-1), 0
+	for _, ed := range p.callersOf(fn) {
+		if p.isTestFn(ed.Caller.Func) {
+			continue
+		}
+		args := ed.Site.Common().Args
+		if idx < 0 || idx >= len(args) {
+			return 0, false
+		}
+		k, ok := capConst(args[idx], 0)
+		if !ok {
+			return 0, false
+		}
+		n++
+		if k > max {
+			max = k
+		}
+	}
+	if n == 0 {
+		return 0, false
+	}
+	return max, true
 }
 
 type condFact struct {
